@@ -35,6 +35,7 @@ type pinfo struct {
 	Proto string
 	Port  int
 	Group string
+	Bound bool // the listen that follows the acquisition has happened (see "bind")
 }
 
 type ginfo struct {
@@ -90,7 +91,7 @@ func (s *mstate) key() string {
 	}
 	var parts []string
 	for k, v := range s.names {
-		parts = append(parts, fmt.Sprintf("n %s %d %s %d %s", k, v.Sess, v.Proto, v.Port, v.Group))
+		parts = append(parts, fmt.Sprintf("n %s %d %s %d %s %v", k, v.Sess, v.Proto, v.Port, v.Group, v.Bound))
 	}
 	for k, v := range s.groups {
 		parts = append(parts, fmt.Sprintf("g %s %s %d %d", k, v.Key, v.ReqPort, v.RealPort))
@@ -114,6 +115,16 @@ func (s *mstate) owners(pi int, port int) []string {
 	var o []string
 	for n, p := range s.names {
 		if p.Proto != "stcp" && protoIdx(p.Proto) == pi && p.Port == port {
+			o = append(o, n)
+		}
+	}
+	return o
+}
+
+func (s *mstate) boundOwners(pi int, port int) []string {
+	var o []string
+	for n, p := range s.names {
+		if p.Bound && p.Proto != "stcp" && protoIdx(p.Proto) == pi && p.Port == port {
 			o = append(o, n)
 		}
 	}
@@ -158,7 +169,32 @@ func (m *allocModel) avail(s *mstate, pi, port int) bool {
 // step is the sequential specification. It returns whether `out` is a legal result of `in` in state s and the next state.
 func (m *allocModel) step(s *mstate, in opIn, out opOut) (bool, *mstate) {
 	switch in.Kind {
-	case "reg":
+	case "bind":
+		// second half of an acknowledged registration: the server listens on the port it acquired for the proxy
+		p, ok := s.names[in.Name]
+		if !ok || p.Sess != in.Sess || p.Bound {
+			return false, s
+		}
+		if s.squat[protoIdx(p.Proto)][p.Port] && len(s.boundOwners(protoIdx(p.Proto), p.Port)) == 0 {
+			return false, s // another program holds the port: the listen cannot have succeeded
+		}
+		n := s.clone()
+		p.Bound = true
+		n.names[in.Name] = p
+		return true, n
+	case "unacq":
+		// second half of a registration that was refused because the listen failed: legal only while another program
+		// holds the port; the acquisition is undone
+		p, ok := s.names[in.Name]
+		if !ok || p.Sess != in.Sess || p.Bound || !s.squat[protoIdx(p.Proto)][p.Port] {
+			return false, s
+		}
+		n := s.clone()
+		n.remove(in.Name)
+		return true, n
+	case "reg", "acq":
+		// "reg": a registration as one step (refusals, proxies without port); "acq": first half of an acknowledged
+		// registration (everything but the listen), see "bind"
 		w := 1
 		if in.Proto == "stcp" {
 			w = 0
@@ -259,7 +295,7 @@ func (m *allocModel) step(s *mstate, in opIn, out opOut) (bool, *mstate) {
 		return true, n
 	case "squat":
 		pi := protoIdx(in.Proto)
-		can := len(s.owners(pi, in.Port)) == 0 && !s.squat[pi][in.Port]
+		can := len(s.boundOwners(pi, in.Port)) == 0 && !s.squat[pi][in.Port]
 		if out.OK != can {
 			return false, s
 		}
@@ -281,7 +317,7 @@ func (m *allocModel) step(s *mstate, in opIn, out opOut) (bool, *mstate) {
 		if out.Unk {
 			return true, s
 		}
-		ow := s.owners(0, in.Port)
+		ow := s.boundOwners(0, in.Port)
 		switch {
 		case out.Owner == "none":
 			return len(ow) == 0 && !s.squat[0][in.Port], s
